@@ -437,6 +437,29 @@ type streamingResponseWriter struct {
 	wroteHeader bool
 	bodyWriter  *io.PipeWriter
 	bodyReader  *io.PipeReader
+
+	// finalTrailer holds the trailer values collected by Close. They are copied
+	// into the streamed response's trailers by the reader of the response body
+	// once it reaches EOF, so that the maps handed over with the streamed
+	// response are never written to by the goroutine running the handler.
+	finalTrailer http.Header
+}
+
+// streamedBody is the body of a streamed response. It fills in the response's
+// trailers (in the goroutine consuming the response) once the body is exhausted.
+type streamedBody struct {
+	*io.PipeReader
+	w *streamingResponseWriter
+}
+
+func (b *streamedBody) Read(p []byte) (int, error) {
+	n, err := b.PipeReader.Read(p)
+	if err == io.EOF {
+		for k, vs := range b.w.finalTrailer {
+			b.w.trailer[k] = vs
+		}
+	}
+	return n, err
 }
 
 func (w *streamingResponseWriter) Header() http.Header {
@@ -476,7 +499,6 @@ func (w *streamingResponseWriter) WriteHeader(status int) {
 			header.Add(k, v)
 		}
 	}
-	w.header = header
 
 	// Take the protocol version information for the response from the corresponding request.
 	proto := "HTTP/1.1"
@@ -493,8 +515,8 @@ func (w *streamingResponseWriter) WriteHeader(status int) {
 		ProtoMinor: protoMinor,
 		StatusCode: status,
 		Status:     http.StatusText(status),
-		Header:     w.header,
-		Body:       w.bodyReader,
+		Header:     header,
+		Body:       &streamedBody{w.bodyReader, w},
 		Trailer:    w.trailer,
 	}
 	select {
@@ -515,12 +537,16 @@ func (w *streamingResponseWriter) Close() error {
 	if !w.wroteHeader {
 		w.WriteHeader(http.StatusOK)
 	}
+	// The trailers map itself now belongs to whoever is consuming the streamed
+	// response, so we only read its (pre-declared) keys here and collect the
+	// values separately. They become visible to that consumer at EOF.
+	finalTrailer := make(http.Header)
 	for k, _ := range w.trailer {
 		for _, v := range w.Header().Values(k) {
 			// The `Values` method does not return a copy, so we manually
 			// add each value one at a time to ensure that subsequent changes
 			// to the header do not affect the trailers map.
-			w.trailer.Add(k, v)
+			finalTrailer.Add(k, v)
 		}
 	}
 	for k, vs := range w.Header() {
@@ -533,9 +559,10 @@ func (w *streamingResponseWriter) Close() error {
 			continue
 		}
 		for _, v := range vs {
-			w.trailer.Add(k, v)
+			finalTrailer.Add(k, v)
 		}
 	}
+	w.finalTrailer = finalTrailer
 	return w.bodyWriter.Close()
 }
 
